@@ -164,6 +164,55 @@ pub fn check(ctx: &mut Ctx) {
             F::Skip(w) => ctx.case("model", "", "skip", serde_json::json!({"why": w.split(':').next().unwrap_or("").to_string()})),
         }
     }
+    // `Q | sort by k | limit N` = the first (last) N rows of `Q | sort by k`, in particular when rows
+    // with equal sort keys straddle the cut (their order is decided by the other columns)
+    let nt = ctx.budget(160, 4000);
+    for _ in 0..nt {
+        let mut r = ctx.rng.fork();
+        let nrows = 2 + r.below(14);
+        let mut input = String::new();
+        for i in 0..nrows {
+            // few distinct keys, other columns in an order unrelated to arrival
+            input.push_str(&format!("{{\"k\":{},\"v\":\"{}\",\"w\":{}}}\n", r.below(3), r.pick(&["q", "a", "c", "b", "z", "m"]), (i * 7 + 3) % 5));
+        }
+        let dir = *r.pick(&["", " desc", " asc"]);
+        let keys = *r.pick(&["k", "k", "w", "k, w"]);
+        let nlim = *r.pick(&[1i64, 2, 3, 4, 5, 7, -1, -2, -3, -5]);
+        let base = format!("* | json | sort by {}{}", keys, dir);
+        let q = format!("{} | limit {}", base, nlim);
+        let key = ckey(&q, input.as_bytes());
+        let all = imp::run(&base, input.as_bytes(), "json", 10);
+        let cut = imp::run(&q, input.as_bytes(), "json", 10);
+        let rows_of = |b: &[u8]| -> Option<Vec<crate::canon::J>> {
+            match crate::canon::parse(String::from_utf8_lossy(b).trim_end()) {
+                Ok(crate::canon::J::Arr(rows)) => Some(rows.iter().map(crate::canon::normalize).collect()),
+                _ => None,
+            }
+        };
+        let info = serde_json::json!({"query": q, "input": input});
+        match (rows_of(&all.stdout), rows_of(&cut.stdout)) {
+            (Some(a), Some(c)) => {
+                let n = nlim.unsigned_abs() as usize;
+                let want: Vec<crate::canon::J> = if nlim > 0 { a.iter().take(n).cloned().collect() } else { a.iter().skip(a.len().saturating_sub(n)).cloned().collect() };
+                if c == want {
+                    ctx.case("limit-after-sort", &key, "pass", info.clone());
+                } else {
+                    ctx.case("limit-after-sort", &key, "viol", serde_json::json!({"class": "", "what": "a limit after a sort is not the first/last N rows of the sorted table", "sorted_table": String::from_utf8_lossy(&all.stdout), "got": String::from_utf8_lossy(&cut.stdout), "case": info}));
+                    continue;
+                }
+            }
+            _ => {
+                ctx.case("limit-after-sort", "", "skip", serde_json::json!({"why": "output is not a table"}));
+                continue;
+            }
+        }
+        let c = run_both(ctx, &q, input.as_bytes());
+        match compare(&c, true) {
+            F::Disagree(d) => ctx.case("model", &key, "fdis", serde_json::json!({"what": d, "case": info})),
+            F::Agree => ctx.case("model", &key, "pass", info),
+            F::Skip(w) => ctx.case("model", "", "skip", serde_json::json!({"why": w.split(':').next().unwrap_or("").to_string()})),
+        }
+    }
     // a limit on a LIVE table: on a terminal the post-aggregate stages run again for every frame
     // (a fresh table each time); the last frame must be the limit applied to the final table — the
     // same rows a non-terminal run prints — for head and tail limits, also when |N| exceeds the
